@@ -104,7 +104,8 @@ void setup_world(const Json::Value& scn, const std::string& tag) {
       if (f.isMember("proc")) {
         ff.path = g.procroot + "/" + f["proc"].asString();
       } else {
-        ff.path = cg_abs(f["cg"].asString()) + "/" + f["file"].asString();
+        // without "file": the cgroup directory itself
+        ff.path = cg_abs(f["cg"].asString()) + (f.isMember("file") ? "/" + f["file"].asString() : "");
       }
       ff.mode = f["mode"].asString();
       ff.from_tick = f.get("from_tick", 0).asInt();
